@@ -20,7 +20,7 @@ ASSUMPTIONS = ['vmon/ref/codec.py strict and lenient decoders (self-tested at se
                'numerals that are not plain digits, malformed PDS/ICC content inside a well-framed carrier, bit 1 clear, '
                'bit 128 set, upper-case hex bitmap, masked elements shorter than 10 characters are don\'t-care for acceptance',
                'a non-library exception counts as a rejection here (C07 reports it)']
-SHARD_TIMEOUT = {'quick': 900, 'thorough': 5400}
+SHARD_TIMEOUT = {'quick': 1800, 'thorough': 14400}
 ENCODINGS = ('latin_1', 'cp500', 'cp864', 'ascii', 'utf_8')
 FAMILIES = ('identity', 'valid_variants', 'hex_bitmap_spellings', 'prefix_digit_replacements', 'prefix_rewrites', 'logical_bitmap_flips', 'zero_length_fields',
             'edge_trims', 'multipoint')
